@@ -217,6 +217,10 @@ func (wr *Writer) tightStruct(rv reflect.Value, si *sinfo) {
 			if !fv.IsValid() {
 				fv = reflect.ValueOf(v)
 			}
+			if fv.Kind() == reflect.Slice && fv.Type().Elem().Kind() == reflect.Uint8 {
+				wr.appendJSON(fv.Bytes(), 0) // honor the BytesAs option
+				break
+			}
 			wr.tightSlice(fv, fi.elem)
 		case reflect.Map:
 			if !fv.IsValid() {
